@@ -23,10 +23,12 @@ TEXTS = [
     "🇩🇪🇫🇷🇮🇹 foo bar\nplain foo line\n",
     "C:\\dir\\file x\\y foo\n",
     "👍🏽👍🏽👍🏽 foo 🇯🇵🇯🇵 bar foo\n🇺🇸 foo\n",
+    # quotes with and without a backslash in front of them
+    'say \\"hi\\" and "plain" x\\"y "z"\n',
 ]
 # the regex subset shared with the reference: literals, ., classes, \d \w \s, + ?, alternation; none can match the empty string
 PATTERNS = ["foo", "bar", "a", "o", "ba.", "f.o", "[0-9]+", "\\d+", "\\w+", "[a-z]+", "b[ae]", "foo|bar", "two|four|six", "a+", "fo+", "Zeile",
-            "é", "日本", "テ", "\\s", "x?y", "zzz", "[A-Z]", "o o", "\\d\\d", "naï", "\\\\", "r\\\\"]
+            "é", "日本", "テ", "\\s", "x?y", "zzz", "[A-Z]", "o o", "\\d\\d", "naï", "\\\\", "r\\\\", '\\\\"', '"', 'y\\\\"h']
 
 
 def gen_chain(rng, text=""):
@@ -38,7 +40,8 @@ def gen_chain(rng, text=""):
     keys = []
     first = rng.choice(["/", "/", "?"])
     # one in seven starts with a selection open: the search is the same search
-    keys.append((rng.choice(["v", "V"]) if rng.random() < 0.15 else "") + first + pat + "<CR>")
+    # (the end of an argument submits a search that is still being typed: one in five leaves the <CR> out)
+    keys.append((rng.choice(["v", "V"]) if rng.random() < 0.15 else "") + first + pat + ("<CR>" if rng.random() < 0.8 else ""))
     for _ in range(rng.randint(0, 5)):
         r = rng.random()
         cnt = rng.choice(["", "", "", "2", "3"])
@@ -48,7 +51,7 @@ def gen_chain(rng, text=""):
             keys.append(cnt + "N")
         elif r < 0.85:
             p2 = rng.choice(PATTERNS)
-            keys.append((rng.choice(["v", "V"]) if rng.random() < 0.15 else "") + rng.choice(["/", "?"]) + p2 + "<CR>")
+            keys.append((rng.choice(["v", "V"]) if rng.random() < 0.15 else "") + rng.choice(["/", "?"]) + p2 + ("<CR>" if rng.random() < 0.8 else ""))
         else:
             keys.append(rng.choice(["w", "b", "$", "0", "j", "k", "l", "h", "G", "gg"]))
     return keys
@@ -112,13 +115,17 @@ def run(chk, binary):
             if st["buf"] != text:
                 chk.violation("spec:a search edited the text", dict(case0, at=k, buffer=st["buf"]))
                 break
+            typed = re.match(r"^[vV]?([/?])(.*?)(?:<CR>)?$", k, re.S)
             if not cmds:
+                if typed and starts_of(typed.group(2), text) is not None:
+                    chk.violation("spec:a search that was typed did not run", dict(case0, at=k))
+                    break
                 prev = st
                 continue
             c = cmds[-1]
             mot = c["motion"]
             cnt = c.get("mcount") or 1
-            ms = re.match(r"^[vV]?([/?])(.*)<CR>$", k, re.S)
+            ms = typed
             if ms:
                 # the direction is the one that was typed, whatever the command says it did
                 back = ms.group(1) == "?"
@@ -186,11 +193,17 @@ def run(chk, binary):
     # ---- through -c at the CLI: the field runs from the old cursor to the match ----
     jobs = []
     jm = []
-    for _ in range(300 if thorough else 60):
-        text = rng.choice(TEXTS[:3])
-        pat = rng.choice(["foo", "bar", "ba.", "o"])
-        jobs.append({"args": ["--json", "-c", "/" + pat + "<CR>"], "stdin": text})
+    for _ in range(600 if thorough else 150):
+        text = rng.choice(TEXTS[:3]) if rng.random() < 0.5 else rng.choice([t for t in TEXTS if "\r" not in t])
+        pat = rng.choice(["foo", "bar", "ba.", "o"]) if rng.random() < 0.5 else rng.choice([p_ for p_ in PATTERNS if "|" not in p_])
+        # (the key string as a user types it on the command line: it goes through the key-string expansion first)
+        jobs.append({"args": ["--json", "-c", "/" + pat + ("<CR>" if rng.random() < 0.8 else "")], "stdin": text})
         jm.append((text, pat))
+    # patterns with backslashes, typed on the command line, on the text that has quotes with and without one
+    for text in [t for t in TEXTS if '\\"' in t or "\\" in t]:
+        for pat in [p_ for p_ in PATTERNS if "\\" in p_ or '"' in p_]:
+            jobs.append({"args": ["--json", "-c", "/" + pat + "<CR>"], "stdin": text})
+            jm.append((text, pat))
     for (text, pat), r in zip(jm, cli_map(binary, jobs)):
         chk.count(("cli", text, pat))
         st = starts_of(pat, text)
